@@ -256,3 +256,39 @@ func (w *World) CallerRoots(fn *ssa.Function) []*ssa.Function {
 	sort.Slice(out, func(i, j int) bool { return out[i].String() < out[j].String() })
 	return out
 }
+
+// funcByKey: the source function (named or literal) with this term key.
+func (w *World) funcByKey(key string) *ssa.Function {
+	if w.byKey == nil {
+		w.byKey = map[string]*ssa.Function{}
+		for _, f := range w.Funcs {
+			w.byKey[fnKey(f)] = f
+		}
+	}
+	return w.byKey[key]
+}
+
+// closureInlinable: a function literal called through a value known on the
+// path can be expanded in place when it is loop-free and small.
+func (w *World) closureInlinable(fn *ssa.Function) bool {
+	if w.NoInline || fn == nil || len(fn.Blocks) == 0 {
+		return false
+	}
+	ifs := 0
+	for _, b := range fn.Blocks {
+		for _, s := range b.Succs {
+			if s.Dominates(b) {
+				return false
+			}
+		}
+		for _, in := range b.Instrs {
+			switch in.(type) {
+			case *ssa.Defer, *ssa.Go, *ssa.Select, *ssa.RunDefers:
+				return false
+			case *ssa.If:
+				ifs++
+			}
+		}
+	}
+	return ifs <= maxInlineIfs
+}
